@@ -11,6 +11,7 @@ def check(ctx: Ctx) -> None:
     SP.r_spawner_shape(ctx, "R04.1s")
     SP.r_unreachable_lock_raise(ctx, "R04.2")
     A.r_one_spawner_per_request(ctx, "R04.3", ("apply", "start"))
+    SP.r_no_fake_cancellation(ctx, "R04.8")
     S.r_spawner_registry_who(ctx, "R04.5")
     # "... even if gather_and_close() is called after the request was accepted": the close must wait for every spawner
     from . import close as CL
